@@ -194,21 +194,29 @@ def one_case(c, rng, tmp):
             if sw.cases and rng.random() < 0.6:
                 rng.shuffle(own_args)
             desc["runner_fn_args"] = list(own_args)
+            # default runner settings given at construction (a per-call setting overrides them)
+            defaults, percall = {}, {"shuffle": shuffle, "verbosity": 0}
+            r = rng.random()
+            if r < 0.25:
+                defaults, percall = {"shuffle": shuffle, "verbosity": 0}, {}
+            elif r < 0.45:
+                defaults = {"shuffle": rng.choice([True, 5, False]), "verbosity": 0}
+            desc["runner_defaults"] = {k: repr(v) for k, v in defaults.items()}
             if api == "label":
                 runner = xyzpy.label(var_names, var_dims=var_dims, var_coords=var_coords,
                                      constants=constants or None, resources=resources or None, attrs=attrs or None,
-                                     fn_args=tuple(own_args))(fn)
+                                     fn_args=tuple(own_args), **defaults)(fn)
             else:
                 runner = xyzpy.Runner(fn, var_names, var_dims=var_dims, var_coords=var_coords,
                                       constants=constants or None, resources=resources or None, attrs=attrs or None,
-                                      fn_args=tuple(own_args))
+                                      fn_args=tuple(own_args), **defaults)
             if sw.cases:
                 # run_cases forwards `combos` unparsed (parse=False): hand it the parsed form
                 from xyzpy.gen.prepare import parse_combos
                 out = runner.run_cases(cases_sp, fn_args=fn_args_sp, combos=parse_combos(combos),
-                                       shuffle=shuffle, to_df=to_df, verbosity=0, **extra)
+                                       to_df=to_df, **percall, **extra)
             else:
-                out = runner.run_combos(combos, shuffle=shuffle, to_df=to_df, verbosity=0, **extra)
+                out = runner.run_combos(combos, to_df=to_df, **percall, **extra)
     except Exception as e:  # noqa
         if pool is not None:
             pool.shutdown()
